@@ -68,6 +68,17 @@ pub fn run(a: &Args) {
             "send_interval" => H::Unit(target.send_interval(period, move || c2.fetch_add(1, std::sync::atomic::Ordering::SeqCst) + 1)),
             "exit_after" => H::Unit(target.exit_after(period)),
             "kill_after" => H::Unit(target.kill_after(period)),
+            // DerivedActorRef: its own copies of the two senders, and the aliases (C12 alias slice)
+            "derived_send_after" => {
+                let c3 = counter.clone();
+                H::Res(target.get_derived::<u64>().send_after(period, move || c3.fetch_add(1, std::sync::atomic::Ordering::SeqCst) + 1))
+            }
+            "derived_send_interval" => {
+                let c3 = counter.clone();
+                H::Unit(target.get_derived::<u64>().send_interval(period, move || c3.fetch_add(1, std::sync::atomic::Ordering::SeqCst) + 1))
+            }
+            "derived_exit_after" => H::Unit(target.get_derived::<u64>().exit_after(period)),
+            "derived_kill_after" => H::Unit(target.get_derived::<u64>().kill_after(period)),
             _ => panic!("unknown timer"),
         };
         let mut events: Vec<(Duration, &str)> = vec![];
